@@ -619,6 +619,10 @@ func (s *Service) DeleteTopic(topic string) error {
 	s.mu.Lock()
 	defer s.mu.Unlock()
 	delete(s.closedTopics, topic)
+	// The handlers went with the topic but their specs are still defined: register them again.
+	for _, h := range s.handlers[topic] {
+		s.topics.RegisterHandler(topic, h.Handler)
+	}
 	return s.topicsStore.Update(func(tx storage.Tx) error {
 		return tx.Delete(topic)
 	})
